@@ -96,10 +96,13 @@ pub struct Model {
     pub inconsistency: Option<(usize, String)>,
     pub keep_steps: bool,
     pub initial: Option<Cand>,
+    pub finished: bool,
 }
 
 pub struct CallInfo {
     pub call: usize,
+    /// the optimiser has returned; this call comes from the harness itself
+    pub finished: bool,
     /// Some when exactly one candidate current state remains
     pub current: Option<Cand>,
     pub n_cands: usize,
@@ -107,7 +110,7 @@ pub struct CallInfo {
 
 impl Model {
     pub fn new(kt_zero: bool, use_expectations: bool) -> Model {
-        Model { kt_zero, use_expectations, cands: vec![], steps: vec![], pending: None, calls: 0, inconsistency: None, keep_steps: true, initial: None }
+        Model { kt_zero, use_expectations, cands: vec![], steps: vec![], pending: None, calls: 0, inconsistency: None, keep_steps: true, initial: None, finished: false }
     }
 
     fn resolve_pending(&mut self) -> Vec<Cand> {
@@ -143,8 +146,12 @@ impl Model {
 
     pub fn begin_call(&mut self, params: &[f64]) -> CallInfo {
         let call = self.calls;
+        if self.finished {
+            let current = if self.cands.len() == 1 { Some(self.cands[0].clone()) } else { self.cands.iter().find(|c| same(&c.params, params)).cloned() };
+            return CallInfo { call, finished: true, current, n_cands: self.cands.len() };
+        }
         if call == 0 {
-            return CallInfo { call, current: None, n_cands: 0 };
+            return CallInfo { call, finished: false, current: None, n_cands: 0 };
         }
         let prev_proposal = self.pending.as_ref().map(|p| p.0.clone());
         let after_prev = self.resolve_pending();
@@ -186,10 +193,13 @@ impl Model {
             self.cands = bases;
         }
         let current = if self.cands.len() == 1 { Some(self.cands[0].clone()) } else { None };
-        CallInfo { call, current, n_cands: self.cands.len() }
+        CallInfo { call, finished: false, current, n_cands: self.cands.len() }
     }
 
     pub fn end_call(&mut self, params: &[f64], returned: Option<f64>) {
+        if self.finished {
+            return;
+        }
         let call = self.calls;
         self.calls += 1;
         if call == 0 {
